@@ -11,9 +11,10 @@
 //       Printer.v known_classes), comma separated, "-" when none.
 //       Whole line REJECT / GLUEERR when the source does not parse.
 //   format07                line: hex(src) TAB width   (width 0 = None = default 80)
-//       L:<verdict>:<hex text> C:<verdict>:<hex text> EV:<same|diff|skip>
-//       L = statement loop of blots-wasm/src/lib.rs::format_blots mirrored (width as given);
-//       C = statement loop of blots/src/main.rs --format mirrored (always width None);
+//       L:<verdict>:<hex text> EV:<same|diff|skip>
+//       L = statement loop of blots-wasm/src/lib.rs::format_blots mirrored (width as given; the crate
+//       is a cdylib); the other driver, `blots --format IN OUT`, is run as the real binary by the
+//       check and its output compared through ast07eq;
 //       verdict = SAME / DIFF / REJECT (formatted text does not parse) / GLUEERR / EMPTY;
 //       EV compares the per-statement evaluation outcomes of src and of the L text.
 //   ast07eq                 line: hex(a) TAB hex(b)  -> SAME | DIFF | REJECT-A | REJECT-B
@@ -338,8 +339,12 @@ fn classes(e: &SpannedExpr, c: &mut Cls) {
     }
 }
 
-fn classes_text(e: &SpannedExpr) -> String {
+fn classes_text(e: &SpannedExpr, index: usize) -> String {
     let mut c = Cls { tags: Vec::new() };
+    // a statement after another one whose printed form starts with `-` continues that statement
+    if index > 0 && starts_neg(e) {
+        c.add("do-minus");
+    }
     classes(e, &mut c);
     if c.tags.is_empty() {
         "-".into()
@@ -371,7 +376,7 @@ fn print07(line: &str, comments: bool) -> String {
     for (i, (k, e)) in stmts.iter().enumerate() {
         let text = expr_to_source(e);
         let rt = verdict(&plain[i..i + 1], &text);
-        out.push(format!("{} {} | {} | {} | {}", k, coq_expr(e), hex(text.as_bytes()), rt, classes_text(e)));
+        out.push(format!("{} {} | {} | {} | {}", k, coq_expr(e), hex(text.as_bytes()), rt, classes_text(e, i)));
     }
     out.join(" ;; ")
 }
@@ -419,39 +424,6 @@ fn lib_driver(src: &str, max_columns: Option<usize>) -> Result<String, &'static 
     Ok(join_statements_with_spacing(&formatted_statements))
 }
 
-/// blots/src/main.rs `--format IN OUT`, statement loop mirrored (the real binary is also run by
-/// the check on a sample).
-fn cli_driver(src: &str) -> Result<String, &'static str> {
-    let pairs = get_pairs(src).map_err(|_| "REJECT")?;
-    let mut formatted_output = String::new();
-    for pair in pairs {
-        if pair.as_rule() == Rule::statement {
-            if let Some(inner_pair) = pair.into_inner().next() {
-                match inner_pair.as_rule() {
-                    Rule::expression => {
-                        let expr = pairs_to_expr_with_comments(inner_pair.into_inner()).map_err(|_| "GLUEERR")?;
-                        formatted_output.push_str(&format_expr(&expr, None));
-                        formatted_output.push('\n');
-                    }
-                    Rule::output_declaration => {
-                        let inner_expr =
-                            pairs_to_expr_with_comments(inner_pair.into_inner()).map_err(|_| "GLUEERR")?;
-                        let output_expr = Spanned::dummy(Expr::Output { expr: Box::new(inner_expr) });
-                        formatted_output.push_str(&format_expr(&output_expr, None));
-                        formatted_output.push('\n');
-                    }
-                    Rule::comment => {
-                        formatted_output.push_str(inner_pair.as_str());
-                        formatted_output.push('\n');
-                    }
-                    _ => {}
-                }
-            }
-        }
-    }
-    Ok(formatted_output)
-}
-
 fn format07(line: &str) -> String {
     let mut parts = line.split('\t');
     let src = match parts.next().and_then(text_of) {
@@ -468,10 +440,6 @@ fn format07(line: &str) -> String {
         Ok(t) => (verdict(&orig, &t), t),
         Err(e) => (e, String::new()),
     };
-    let (cv, ct) = match cli_driver(&src) {
-        Ok(t) => (verdict(&orig, &t), t),
-        Err(e) => (e, String::new()),
-    };
     let ev = if lv == "EMPTY" || lv == "GLUEERR" {
         "skip"
     } else {
@@ -479,7 +447,7 @@ fn format07(line: &str) -> String {
         let b = run_program(&mut Session::new(None).unwrap(), &lt, false);
         if a == b { "same" } else { "diff" }
     };
-    format!("L:{}:{} C:{}:{} EV:{}", lv, hex(lt.as_bytes()), cv, hex(ct.as_bytes()), ev)
+    format!("L:{}:{} EV:{}", lv, hex(lt.as_bytes()), ev)
 }
 
 fn ast07eq(line: &str) -> String {
